@@ -199,10 +199,10 @@ retry_fetch_lv:
             }
 
             value* v = value::create_value<kIsInline>(v_ptr, v_len, v_align);
-            if constexpr (kIsInline) {
-                lv_ptr->set_value(v, created_v_ptr);
-                target_border->version_unlock();
-            } else {
+            {
+                // The replaced value may be an out-of-line one even when the new value is
+                // inline (the same key written with different value types): readers of
+                // open sessions may still hold it, so it is always retired, never deleted.
                 value* old_v = nullptr;
                 lv_ptr->set_value(v, created_v_ptr, &old_v);
                 target_border->version_unlock();
